@@ -463,3 +463,165 @@ func c03famH(n int) {
 
 func HarnessC03H1() { c03famH(1) }
 func HarnessC03H2() { c03famH(2) }
+
+// ---- family I: references of *named* pointer, map and slice types
+
+type c03Ref *c03I
+type c03RefMap map[string]*c03I
+type c03RefList []c03Ref
+
+type c03I struct {
+	Val int64
+	P   c03Ref
+	Q   *c03I
+	M   c03RefMap
+	L   c03RefList
+}
+
+type c03cfgI struct{ R0, R1 c03Ref }
+
+func c03famI(n int) {
+	nodes := make([]*c03I, n)
+	for i := range nodes {
+		nodes[i] = &c03I{Val: zzverif.Int64("val" + strconv.Itoa(i))}
+	}
+	get := func(name string) *c03I {
+		if k := c03pick(name, n); k >= 0 {
+			return nodes[k]
+		}
+		return nil
+	}
+	for i, nd := range nodes {
+		nd.P = get("n" + strconv.Itoa(i) + "P")
+		nd.Q = get("n" + strconv.Itoa(i) + "Q")
+		if i == 0 {
+			if zzverif.Choose("n0M", 2) == 1 {
+				nd.M = c03RefMap{"k": get("n0Mk")}
+			}
+			if zzverif.Choose("n0L", 2) == 1 {
+				nd.L = c03RefList{get("n0L0")}
+			}
+		}
+	}
+	def := &c03cfgI{R0: nodes[0], R1: get("R1")}
+	c03check("family I (named pointer/map/slice types)", def, func(c *c03cfgI) []reflect.Value {
+		out := []reflect.Value{reflect.ValueOf((*c03I)(c.R0)), reflect.ValueOf((*c03I)(c.R1))}
+		for _, r := range []*c03I{c.R0, c.R1} {
+			if r != nil {
+				out = append(out, reflect.ValueOf((*c03I)(r.P)), reflect.ValueOf(r.Q))
+				if r.M != nil {
+					out = append(out, reflect.ValueOf(r.M["k"]))
+				}
+				if len(r.L) > 0 {
+					out = append(out, reflect.ValueOf((*c03I)(r.L[0])))
+				}
+			}
+		}
+		return out
+	})
+}
+
+func HarnessC03I2() { c03famI(2) }
+
+// ---- family S: sharing inside a *source value* (user-declared pointer leaves keep their type
+// in the pointerified struct, so a source can hand dials the same pointer in several places),
+// stacked through Config and re-stacked through the monitor.
+
+type c03S struct {
+	Primary *int64
+	Again   *int64
+	All     []*int64
+	Limits  map[string]*int64
+	K       int8
+}
+
+type c03ssrc struct {
+	mk func(t *Type) reflect.Value
+	t  *Type
+	wa WatchArgs
+}
+
+func (s *c03ssrc) Value(ctx context.Context, t *Type) (reflect.Value, error) { return s.mk(t), nil }
+func (s *c03ssrc) Watch(ctx context.Context, t *Type, wa WatchArgs) error {
+	s.t, s.wa = t, wa
+	return nil
+}
+
+func HarnessC03SourceSharing() {
+	a, b := zzverif.Int64("a"), zzverif.Int64("b")
+	pick := func(name string, ints []*int64) *int64 {
+		if k := c03pick(name, 2); k >= 0 {
+			return ints[k]
+		}
+		return nil
+	}
+	sPrimary, sAgain, sAll, sLim := c03pick("primary", 2), c03pick("again", 2), c03pick("all0", 2), c03pick("lim", 2)
+	var lastInts []*int64
+	mk := func(t *Type) reflect.Value {
+		x, y := a, b
+		ints := []*int64{&x, &y}
+		lastInts = ints
+		sel := func(k int) *int64 {
+			if k < 0 {
+				return nil
+			}
+			return ints[k]
+		}
+		out := reflect.New(t.Type()).Elem()
+		out.FieldByName("Primary").Set(reflect.ValueOf(sel(sPrimary)))
+		out.FieldByName("Again").Set(reflect.ValueOf(sel(sAgain)))
+		if sAll >= 0 {
+			out.FieldByName("All").Set(reflect.ValueOf([]*int64{sel(sAll)}))
+		}
+		if sLim >= 0 {
+			out.FieldByName("Limits").Set(reflect.ValueOf(map[string]*int64{"default": sel(sLim)}))
+		}
+		return out
+	}
+	_ = pick
+	src := &c03ssrc{mk: mk}
+	ctx, cancel := context.WithCancel(context.Background())
+	defer cancel()
+	def := c03S{K: 1}
+	d, err := Config(ctx, &def, src)
+	zzverif.Assert(err == nil, "C03 source sharing: Config failed")
+	if err != nil {
+		return
+	}
+	check := func(when string) {
+		got := d.View()
+		slots := []*int64{got.Primary, got.Again, nil, nil}
+		if len(got.All) > 0 {
+			slots[2] = got.All[0]
+		}
+		if got.Limits != nil {
+			slots[3] = got.Limits["default"]
+		}
+		want := []int{sPrimary, sAgain, sAll, sLim}
+		for i := range slots {
+			zzverif.Assert((slots[i] == nil) == (want[i] < 0), "C03 source sharing ("+when+"): a reference set by the source is missing in the view, or one it left unset is present")
+			if slots[i] == nil || want[i] < 0 {
+				continue
+			}
+			wantVal := a
+			if want[i] == 1 {
+				wantVal = b
+			}
+			zzverif.Assert(*slots[i] == wantVal, "C03 source sharing ("+when+"): wrong pointee value")
+			for _, p := range lastInts {
+				zzverif.Assert(slots[i] != p, "C03 source sharing ("+when+"): the view aliases the source's value")
+			}
+			for j := i + 1; j < len(slots); j++ {
+				if slots[j] == nil || want[j] < 0 {
+					continue
+				}
+				zzverif.Assert((slots[i] == slots[j]) == (want[i] == want[j]), "C03 source sharing ("+when+"): references that were identical in the source's value are not identical in the view (or vice versa): slots "+strconv.Itoa(i)+","+strconv.Itoa(j))
+			}
+		}
+	}
+	check("initial stack")
+	e := src.wa.BlockingReportNewValue(ctx, mk(src.t))
+	zzverif.Assert(e == nil, "C03 source sharing: a blocking report failed")
+	check("re-stack")
+	zzverif.Reached("c03s-end")
+}
